@@ -48,6 +48,11 @@ func descN(v ssa.Value, depth int) string {
 			return "nil"
 		}
 		if x.Value.Kind() == constant.String {
+			if n, ok := x.Type().(*types.Named); ok && n.Obj().Pkg() != nil && n.Obj().Pkg().Path() == ModPath+"/errors" {
+				if name, ok := errConstNames[constant.StringVal(x.Value)]; ok {
+					return name
+				}
+			}
 			return x.Value.ExactString()
 		}
 		return x.Value.String()
@@ -57,7 +62,7 @@ func descN(v ssa.Value, depth int) string {
 			if src := allocSource(x); src != nil {
 				return descN(src, d)
 			}
-			return "~" + x.Comment
+			return "$" + x.Comment
 		}
 		return "new"
 	case *ssa.FieldAddr:
@@ -200,8 +205,12 @@ func freeVarName(x *ssa.FreeVar) string {
 		}
 		fn = par
 	}
-	return "~" + x.Name()
+	return "$" + x.Name()
 }
+
+// errConstNames maps the text of the module's error constants to their names
+// ("object closed" -> "ErrClosed"); filled by Load from the errors package scope.
+var errConstNames = map[string]string{}
 
 // allocSource: for a local Alloc that is written exactly once, at function entry, with
 // a parameter or free variable (the spill of a captured receiver), return that value.
@@ -233,6 +242,10 @@ func callDesc(c *ssa.CallCommon, d int) string {
 	}
 	switch f := c.Value.(type) {
 	case *ssa.Function:
+		// results of in-module helpers with several arguments are abbreviated
+		if _, ok := Rel(pkgPathOf(f)); ok && len(args) >= 2 {
+			return FuncShort(f) + "(…)"
+		}
 		return FuncShort(f) + "(" + strings.Join(args, ",") + ")"
 	case *ssa.Builtin:
 		return f.Name() + "(" + strings.Join(args, ",") + ")"
